@@ -88,6 +88,11 @@ def targeted():
     # the grouping column is neither used above the subquery nor selected at the end (F61: it was pruned from the subquery)
     T.append(("grouping_pruned_summarize", lambda p, t, u: t >> p.group_by(t.g) >> p.mutate(w=t.b.sum()) >> p.alias("z") >> p.filter(p.C.w > 0) >> p.summarize(n=p.count()) >> p.select(p.C.n)))
     T.append(("grouping_pruned_window", lambda p, t, u: t >> p.group_by(t.g) >> p.mutate(w=t.b.sum()) >> p.alias("z") >> p.filter(p.C.w > 0) >> p.mutate(m=p.C.a.max()) >> p.ungroup() >> p.select(p.C.m)))
+    def hidden_window_alias_filter(p, t, u):
+        a = t >> p.mutate(w=t.b.sum())
+        return a >> p.drop(a.w) >> p.alias("z", keep_col_refs=True) >> p.filter(t.a > 0) >> p.mutate(v=a.w + 1)
+
+    T.append(("hidden_window_alias_filter", hidden_window_alias_filter))
     T.append(("hidden_through_subquery", lambda p, t, u: t >> p.mutate(a=t.a + 1) >> p.arrange(p.C.a.nulls_last(), t.b.nulls_last(), t.g.nulls_last()) >> p.slice_head(2) >> p.alias("z", keep_col_refs=True) >> p.filter(t.a > 0) >> p.mutate(w=t.a, v=p.C.a)))
     T.append(("reorder_through_subquery", lambda p, t, u: t >> p.select(t.g, t.a, t.b) >> p.mutate(a=t.b) >> p.arrange(t.b.nulls_last(), t.g.nulls_last(), t.a.nulls_last()) >> p.slice_head(2) >> p.alias("z") >> p.filter(p.C.g.is_not_null())))
     T.append(("two_subqueries", lambda p, t, u: t >> p.mutate(s=t.b.sum(partition_by=t.g)) >> p.alias("y") >> p.filter(p.C.s > 0) >> p.mutate(r=p.row_number(arrange=[p.C.a.nulls_last(), p.C.b.nulls_last(), p.C.g.nulls_last()])) >> p.alias("z") >> p.filter(p.C.r <= 2)))
@@ -100,6 +105,17 @@ def refused():
     # the search for a usable alias() must not walk into the operands of a union (F62: TypeError from copying a source table)
     R.append(("union_then_full_join", lambda p, t, u: t >> p.select(t.a) >> p.filter(t.a > 1) >> p.union(u >> p.select(u.k) >> p.rename({"k": "a"}) >> p.alias("r")) >> p.full_join(u, p.C.a == u.k)))
     R.append(("union_alias_left_then_full_join", lambda p, t, u: t >> p.select(t.a) >> p.alias("l") >> p.filter(p.C.a > 1) >> p.union(u >> p.select(u.k) >> p.rename({"k": "a"}) >> p.alias("r")) >> p.full_join(u, p.C.a == u.k)))
+    # a HIDDEN window column stays referable and would be inlined after the WHERE / JOIN (F63)
+    def hidden_window_then_filter(p, t, u):
+        a = t >> p.mutate(w=t.b.sum())
+        return a >> p.drop(a.w) >> p.filter(t.a > 0) >> p.mutate(v=a.w + 1)
+
+    def hidden_window_then_join(p, t, u):
+        a = t >> p.mutate(w=t.b.sum(partition_by=t.g))
+        return a >> p.select(t.a, t.b) >> p.inner_join(u, t.a == u.k) >> p.mutate(q=a.w)
+
+    R.append(("hidden_window_then_filter", hidden_window_then_filter))
+    R.append(("hidden_window_then_join", hidden_window_then_join))
     return R
 
 
